@@ -132,6 +132,10 @@ func runC13(c *rt.Ctx) {
 						prep = prep01
 					}
 					run(PoolScenario{Harness: "C13", BatchSize: bs, PoolSize: 1, Prep: prep, Callers: callers, MaxCuts: 1, Refusals: refusals, Late: true, Yields: []string{"batcher"}})
+					if c.Thorough() && i%6 == 0 {
+						// all three goroutines of the pooled connection park at their uses of it
+						run(PoolScenario{Harness: "C13", BatchSize: bs, PoolSize: 1, Prep: prep, Callers: callers, MaxCuts: 1, Refusals: refusals, Late: true, Yields: []string{"batcher", "reader", "reconnect"}})
+					}
 				}
 			}
 		}
